@@ -653,6 +653,10 @@ func NewLinkNames(plan []*core.Change) map[string]bool {
 			return
 		}
 		if e.Kind == core.EntryKind_SymbolicLink {
+			if path == "" {
+				// a link at the root path is created under the root's own name
+				out["root"] = true
+			}
 			out[Leaf(path)] = true
 		}
 		for n, k := range e.Contents {
